@@ -92,6 +92,7 @@ type c13Input struct {
 	Granted  []string    `json:"granted"`
 	Sess     c13Sess     `json:"session"`
 	Kind     string      `json:"kind"`
+	Push     bool        `json:"push,omitempty"` // the same parameters sent to the pushed-authorization endpoint by the authenticated client
 	Obs      *c13Obs     `json:"observed,omitempty"`
 }
 
@@ -441,14 +442,30 @@ func c13Exec(in *c13Input) Case {
 	o := &c13Obs{Eff: []string{}, Keys: []string{}}
 	rec := httptest.NewRecorder()
 	now0 := time.Now().UTC().Truncate(time.Second)
-	ar, err := prov.NewAuthorizeRequest(ctx, req)
+	var ar fosite.AuthorizeRequester
+	var err error
+	if in.Push {
+		body := strings.Join(qs, "&")
+		preq := httptest.NewRequest("POST", "https://as.example/par", strings.NewReader(body))
+		preq.Header.Set("Content-Type", "application/x-www-form-urlencoded")
+		if in.Client != nil && !in.Client.Public {
+			preq.SetBasicAuth(url.QueryEscape(in.ClientID), url.QueryEscape("c13-secret"))
+		}
+		ar, err = prov.NewPushedAuthorizeRequest(ctx, preq)
+	} else {
+		ar, err = prov.NewAuthorizeRequest(ctx, req)
+	}
 	for _, k := range c13Watched {
 		o.Eff = append(o.Eff, ar.GetRequestForm().Get(k))
 	}
 	o.State = ar.GetState()
 	issued := false
 	var resp fosite.AuthorizeResponder
-	if err != nil {
+	if in.Push {
+		if err != nil {
+			o.ReqErr = errName(err)
+		}
+	} else if err != nil {
 		o.ReqErr = errName(err)
 		prov.WriteAuthorizeError(ctx, rec, ar, err)
 	} else {
@@ -479,7 +496,9 @@ func c13Exec(in *c13Input) Case {
 			prov.WriteAuthorizeResponse(ctx, rec, ar, resp)
 		}
 	}
-	c13ReadWritten(rec, o)
+	if !in.Push {
+		c13ReadWritten(rec, o)
+	}
 
 	// the code at the token endpoint
 	if issued && resp.GetCode() != "" && in.Client != nil {
@@ -608,6 +627,10 @@ func c13Exec(in *c13Input) Case {
 		in.MinRaw, strat, Q(in.ClientID), clCoq, L(formCoq), roCoq, B(in.FetchOK), L(redirs), QL(in.Granted),
 		B(in.Sess.OIDC), Q(in.Sess.Subject), optZ(in.Sess.Auth), optZ(in.Sess.Rat), Z(c13Now), obsCoq)
 
+	if in.Push {
+		term = fmt.Sprintf("IPush (Cf %d %s) %s %s (Rq %s %s %s %s) %s %s %s",
+			in.MinRaw, strat, Q(in.ClientID), clCoq, L(formCoq), roCoq, B(in.FetchOK), L(redirs), Q(o.ReqErr), QL(o.Eff), Q(o.State))
+	}
 	rp := *in
 	rp.Obs = o
 	kb, _ := json.Marshal(in)
@@ -1204,9 +1227,53 @@ func c13Product(out *Out, full bool) {
 	}
 }
 
+var c13EmitCount int
+
+// every third request of a registered client whose client_id parameter names it is also sent, unchanged, to the
+// pushed-authorization endpoint by that client; when it carries a request object, every other twin's object gets a
+// request_uri claim (a pushed request must not contain one, in the form or in the object)
+func c13PushTwin(out *Out, in *c13Input) {
+	c13EmitCount++
+	if in.Push || in.Client == nil || c13EmitCount%3 != 0 {
+		return
+	}
+	id := ""
+	for _, p := range in.Params {
+		if p[0] == "client_id" {
+			id = p[1]
+			break
+		}
+	}
+	if id != in.ClientID {
+		return
+	}
+	tw := *in
+	tw.Push = true
+	tw.Kind = in.Kind + "+push"
+	tw.Obs = nil
+	if in.RO != nil && !in.RO.Malformed && c13EmitCount%2 == 0 {
+		ro := *in.RO
+		ro.Claims = map[string]any{}
+		for k, v := range in.RO.Claims {
+			ro.Claims[k] = v
+		}
+		ro.Claims["request_uri"] = "https://rp.example/ro/1"
+		tw.RO = &ro
+	}
+	c := c13Exec(&tw)
+	out.Add(c)
+	out.Count("stream:" + tw.Kind)
+	if o := c.Replay.(c13Input).Obs; o.ReqErr != "" {
+		out.Count("push:" + o.ReqErr)
+	} else {
+		out.Count("push:accepted")
+	}
+}
+
 func c13Emit(out *Out, in *c13Input) {
 	c := c13Exec(in)
 	out.Add(c)
+	defer c13PushTwin(out, in)
 	o := c.Replay.(c13Input).Obs
 	out.Count("stream:" + in.Kind)
 	switch {
